@@ -141,6 +141,40 @@ RECIPES.update({
   // read str and assemble instruction line by line"""), ("src/parser.c", "      switch (al->assembly_mode) {", "      switch (mode) {"), ("src/parser.c", "  if (al->assembly_mode == CHUNK_FITTING && al->debug)\n    debug_with_chunksize(al->buffer,", "  if (mode == CHUNK_FITTING && al->debug)\n    debug_with_chunksize(al->buffer,")],
 })
 
+HEAD_BEGIN = """      if (unfiltered_str[i] > '!') {
+        filter_str[j++] = (char)tolower(unfiltered_str[i]);"""
+DOC = """/**
+ * reads @param unfiltered_str and writes the filtered string into @param
+ * filter_str
+ */
+static int filter_assembly_str_fsa("""
+def lower_recipe(helper):
+    return [("src/parser.c", DOC, helper + DOC), ("src/parser.c", "ALL:(char)tolower(unfiltered_str[i])", "ascii_lower(unfiltered_str[i])")]
+RECIPES.update({
+ "C10-l": [("src/parser.c", "      if (unfiltered_str[i] > '!') {\n        filter_str[j++] = (char)tolower(unfiltered_str[i]);\n        filter_state = FIRST_CH;", "      // a line starts at its first letter\n      if (isalpha((unsigned char)unfiltered_str[i])) {\n        filter_str[j++] = (char)tolower(unfiltered_str[i]);\n        filter_state = FIRST_CH;")],
+ "C01-j": lower_recipe("""/**
+ * ASCII-only lower casing: @param c can be any char value (tolower() is
+ * undefined for negative arguments and depends on the locale of the caller)
+ */
+static char ascii_lower(char c) {
+  return (c > '@' && c < 'Z') ? (char)(c + ('a' - 'A')) : c;
+}
+
+"""),
+ "C16-i": lower_recipe("""/**
+ * lower-cases an ASCII letter (tolower() depends on the current locale and is
+ * a function call per character)
+ */
+static inline char ascii_lower(char ch) {
+  if (ch >= 'A' && ch < 'Z')
+    return (char)(ch + ('a' - 'A'));
+  return ch;
+}
+
+"""),
+ "C16-b": "3way",
+})
+
 def main(wt, only=None):
     head = subprocess.check_output("git -C /repo rev-parse --short HEAD", shell=True, text=True).strip()
     E.sh("git checkout -q --detach %s && git checkout -- . && git clean -fdq -e .libs" % head, cwd=wt)
@@ -156,6 +190,10 @@ def main(wt, only=None):
         else:
             for f, old, new in rec:
                 p = os.path.join(wt, f); s = open(p).read()
+                if old.startswith("ALL:"):
+                    old = old[4:]
+                    if old not in s: print(name, "recipe does not match"); break
+                    open(p, "w").write(s.replace(old, new)); continue
                 if old not in s: print(name, "recipe does not match"); break
                 open(p, "w").write(s.replace(old, new, 1))
         rc, diff = E.sh("git diff", cwd=wt)
